@@ -56,6 +56,22 @@ TrManual ==
     /\ PostMatches(TRUE)
     /\ last' = [op |-> "ManualReject"]
 
+TrManualSession ==
+    /\ Consume("ManualSession")
+    /\ LET r == Tup2(Ev.r)
+           b == <<Ev.b[1], Ev.b[2], Ev.b[3], Ev.b[4]>>
+           noop == r = rng /\ kwe
+           p0 == IF noop THEN pk ELSE Ev.t.pk
+           w0 == IF noop THEN vw ELSE MaskVW(p0)
+           v0 == IF noop THEN vp ELSE MaskVP(p0)
+       IN /\ (noop \/ PeaksAllowed(p0, r)) = TRUE
+          /\ rng' = r /\ pk' = p0 /\ kwe' = kwe /\ mrng' \in {r, mrng}
+          /\ vw' = [a \in Az |-> [w \in Win |-> w0[a][w] /\ ~Hit(a, w, b)]]
+          /\ vp' = [a \in Az |-> [w \in Win |-> v0[a][w] /\ ~Hit(a, w, b)]]
+          /\ UNCHANGED cv
+    /\ PostMatches(FALSE)
+    /\ last' = [op |-> "ManualSession"]
+
 \* the container meta is not constrained here (C06 does not speak about it; C12 is
 \* judged by the write/read round trip itself)
 TrFdwra ==
@@ -100,7 +116,7 @@ TrReadOnly ==
     /\ PostMatches(TRUE)
     /\ last' = [op |-> "ReadOnly"]
 
-TraceNext == TrUpdateRange \/ TrTdReject \/ TrManual \/ TrFdwra \/ TrFdwraUndef \/ TrReadOnly
+TraceNext == TrUpdateRange \/ TrTdReject \/ TrManual \/ TrManualSession \/ TrFdwra \/ TrFdwraUndef \/ TrReadOnly
 TraceSpec == TraceInit /\ [][TraceNext]_tvars
 
 Accepted == (l = Len(Traces[tid].ev) + 1) => PrintT(ToJson([acc |-> tid]))
